@@ -117,7 +117,7 @@ example : f_mequal_e.treeWalk = true ∧ [4, 4, 3] ∈ f_mequal_e.keys ∧
     ((lookup "mequal_e" [4, 4, 3]).out 0).leaves.length > 4 := by decide
 
 /-- non-vacuity: the clamp units branch, and the table covers 37 functions -/
-example : relFamilies.length = 61 ∧ ((lookup "v_clamp" [7, 4]).out 3).leaves.length > 1 ∧
+example : relFamilies.length = 73 ∧ ((lookup "v_clamp" [7, 4]).out 3).leaves.length > 1 ∧
     ((lookup "s_clamp" []).out 0).leaves.length > 1 := by decide +kernel
 
 end Glm.Props.C01
